@@ -322,7 +322,7 @@ macro_rules! family {
                     36 => { if let Some(m) = pick(c, &s.rm3) { let e = m.to_euler(EULER_ALL[c.idx(24)]); s.of(e.0); s.of(e.1); s.of(e.2); s.om3(m.inverse()); s.o3(m * seed_v3(c)); s.consumer_steps_on_produced += 1; } "Mat3 consumers" }
                     37 => { let (m, fed) = m4(c, s); let v = seed_v3(c); s.o3(m.transform_point3(v)); s.o3(m.transform_vector3(v)); s.o3(m.project_point3(v)); if fed { s.consumer_steps_on_produced += 1; } "Mat4 transform" }
                     38 => { let (m, fed) = m4(c, s); let (sc, r, t) = m.to_scale_rotation_translation(); s.o3(sc); s.oq(r); s.o3(t); /* the pool may hold sheared products: r is observed but never pooled (shear-free inputs: ops 48, 49) */ if fed { s.consumer_steps_on_produced += 1; } "Mat4::to_srt" }
-                    39 => { let (m, fed) = m4(c, s); let inv = m.inverse(); s.om4(inv); if fed { s.consumer_steps_on_produced += 1; } "Mat4::inverse" }
+                    39 => { let (m, fed) = m4(c, s); let inv = m.inverse(); s.om4(inv); /* the inverse of an affine matrix is an affine matrix: it is handed to the affine-only transforms whenever its computed last row is (0,0,0,1) to rounding (5e-7, half of what transform_point3 accepts; cofactor / determinant is off by an ulp or two, more only for ill-conditioned products, which stay out) */ { let r = inv.row(3); if r.x.abs() <= 5e-7 && r.y.abs() <= 5e-7 && r.z.abs() <= 5e-7 && (r.w - 1.0).abs() <= 5e-7 && inv.is_finite() { let v = seed_v3(c); s.o3(inv.transform_point3(v)); s.o3(inv.transform_vector3(v)); } } /* the same for sixteen fresh TRS matrices (the last-row entry is off by more than an ulp only for about one matrix in ten thousand) */ for _ in 0..16 { let (q, _) = uq(c, s); let k = (2.0f64).powf(c.r(-3.0, 3.0)) as F; let m = $M4::from_scale_rotation_translation(seed_scale(c) * k, q, seed_v3(c) * 10.0); let inv = m.inverse(); let r = inv.row(3); if r.x.abs() <= 5e-7 && r.y.abs() <= 5e-7 && r.z.abs() <= 5e-7 && (r.w - 1.0).abs() <= 5e-7 && inv.is_finite() { let v = seed_v3(c); s.o3(inv.transform_point3(v)); s.o3(inv.transform_vector3(v)); } } if fed { s.consumer_steps_on_produced += 1; } "Mat4::inverse" }
                     40 => { if let Some(a) = pick(c, &s.a3) { let v = seed_v3(c); s.o3(a.transform_point3(v)); s.o3(a.transform_vector3(v)); let (sc, r, t) = a.to_scale_rotation_translation(); s.o3(sc); s.oq(r); s.o3(t); s.oa3(a.inverse()); if let Some(b) = pick(c, &s.a3) { let p = a * b; s.oa3(p); s.a3.push(p); } s.consumer_steps_on_produced += 1; } "Affine3 consumers" }
                     41 => { let v = seed_v3(c); let lo = seed_v3(c); let hi = lo + $V3::new(c.r(0.0, 3.0) as F, c.r(0.0, 3.0) as F, c.r(0.0, 3.0) as F); s.o3(v.clamp(lo, hi)); let mn = c.r(0.0, 2.0) as F; let mx = mn + c.r(0.0, 2.0) as F; s.o3(v.clamp_length(mn, mx)); s.o3(v.clamp_length_max(mx)); s.o3(v.clamp_length_min(mn)); s.o3(v.clamp_length(0.0, 0.0)); "clamp" }
                     42 => { let a = $A2::from_scale_angle_translation(seed_v2(c), angle(c), seed_v2(c)); s.oa2(a); s.a2.push(a); let (sc, an, t) = a.to_scale_angle_translation(); s.o2(sc); s.of(an); s.o2(t); s.oa2(a.inverse()); s.o2(a.transform_point2(seed_v2(c))); let m = $M3::from_scale_angle_translation(seed_v2(c), angle(c), seed_v2(c)); s.o2(m.transform_point2(seed_v2(c))); s.o2(m.transform_vector2(seed_v2(c))); "2d" }
@@ -514,12 +514,20 @@ mod f32only_impl {
     use super::*;
     pub fn go(c: &mut Cur, s: &mut St) {
         let pickq = if s.uq.is_empty() { Quat::IDENTITY } else { s.uq[c.idx(s.uq.len())] };
-        let v = Vec3A::new(c.r(-4.0, 4.0) as f32, c.r(-4.0, 4.0) as f32, c.r(-4.0, 4.0) as f32 + 0.5);
+        // the padding lane carries what earlier operations may leave there (inf, NaN, huge, zero)
+        let junk = [f32::INFINITY, f32::NAN, f32::NEG_INFINITY, 1e30, 0.0, -0.0, f32::from_bits(0x7f80_0001), 3.0e38][(c.w[0] >> 40) as usize % 8];
+        let v = Vec3A::from_vec4(Vec4::new(c.r(-4.0, 4.0) as f32, c.r(-4.0, 4.0) as f32, c.r(-4.0, 4.0) as f32 + 0.5, junk));
         let r = pickq.mul_vec3a(v);
         for x in r.to_array() {
             s.obs.push(x.to_bits() as u64);
         }
         let n = v.normalize();
+        s.p_uv3("Vec3A::normalize (junk padding)", Vec3::from(n));
+        if let Some(tn) = v.try_normalize() { s.p_uv3("Vec3A::try_normalize (junk padding)", Vec3::from(tn)); }
+        s.p_uv3("Vec3A::normalize_or_zero (junk padding)", Vec3::from(v.normalize_or_zero()));
+        for x in [v.length(), v.length_recip(), v.dot(n), v.project_onto_normalized(n).x, v.reject_from_normalized(n).x, v.angle_between(n)] {
+            s.obs.push(x.to_bits() as u64);
+        }
         let (a, b) = n.any_orthonormal_pair();
         for x in a.to_array().into_iter().chain(b.to_array()) {
             s.obs.push(x.to_bits() as u64);
